@@ -46,6 +46,19 @@ func (e *aolEnv) addr(text string) string {
 	return hxs(text)
 }
 
+// begin / abort a discarded branch
+func (e *aolEnv) begin() func() {
+	saved := e.ctx
+	e.ctx, _ = e.ctx.CacheContext()
+	inBranch = true
+	e.s.Emit("aol.begin", "-")
+	return func() {
+		e.ctx = saved.WithBlockTime(e.ctx.BlockTime())
+		inBranch = false
+		e.s.Emit("aol.abort", "-")
+	}
+}
+
 func (e *aolEnv) reset() {
 	e.ctx, _ = e.c.DeliverCtx().CacheContext()
 	e.s.Emit("reset", "-")
@@ -129,7 +142,7 @@ func (e *aolEnv) msgOff(m sdk.Msg) (okRes bool, offRes uint64) {
 		write()
 	}
 	e.s.Emit(op, ans)
-	return strings.HasPrefix(ans, "ok"), offRes
+	return strings.HasPrefix(ans, "ok") && !inBranch, offRes
 }
 
 func pageStr(p *query.PageRequest) string {
@@ -412,10 +425,31 @@ func aolHistory(e *aolEnv, rng *rand.Rand, p aolPools, steps int) {
 		}
 		return p.addr(rng)
 	}
+	inBranch = false
 	for i := 0; i < steps; i++ {
 		if rng.Intn(6) == 0 {
 			now += int64(1 + rng.Intn(5000))
 			e.now(now)
+		}
+		// now and then a transaction whose effects are discarded: a writer is added and appends on the branch (and the
+		// same add-writer again, which is what makes such a transaction fail); afterwards that address tries to append
+		if len(topics) > 0 && rng.Intn(9) == 0 {
+			k := topics[rng.Intn(len(topics))]
+			w := p.addr(rng)
+			abort := e.begin()
+			e.msg(&aoltypes.MsgAddWriterRequest{TopicName: k.t, Moniker: "ghost", WriterAddress: w, OwnerAddress: k.o})
+			e.msg(&aoltypes.MsgAddRecordRequest{TopicName: k.t, Key: []byte("g"), Value: []byte("h"), WriterAddress: w, OwnerAddress: k.o})
+			switch rng.Intn(3) {
+			case 0:
+				e.msg(&aoltypes.MsgAddWriterRequest{TopicName: k.t, Moniker: "ghost", WriterAddress: w, OwnerAddress: k.o})
+			case 1:
+				e.msg(&aoltypes.MsgCreateTopicRequest{TopicName: p.topic(rng), OwnerAddress: k.o})
+			}
+			abort()
+			e.msg(&aoltypes.MsgAddRecordRequest{TopicName: k.t, Key: []byte("after"), Value: []byte("abort"), WriterAddress: w, OwnerAddress: k.o})
+			e.qTopic(k.o, k.t)
+			e.qWriter(k.o, k.t, w)
+			continue
 		}
 		switch r := rng.Intn(20); {
 		case r < 3:
